@@ -212,6 +212,21 @@ def run(ctx):
             q[field]["Zother"] = q[field].pop(names[0])
             expect(ctx, {"what": f"{model}: bloc names of {field} differ from the others", "model": model, "params": q},
                    lambda q=q: bp.make(model, q, extra), ValueError, "bloc_names")
+        # one-sided mismatches: a bloc missing from, or extra in, one or two of the three dictionaries
+        fields = ("bloc_voter_prop", "pref_intervals_by_bloc", "cohesion_parameters")
+        variants = [("drop", (f,)) for f in fields] + [("add", (f,)) for f in fields] + \
+                   [("add", (fields[1], fields[2])), ("add", (fields[0], fields[1])), ("drop", (fields[1], fields[2]))]
+        for op, fs in variants:
+            q = copy.deepcopy(p)
+            for f in fs:
+                if op == "drop":
+                    q[f].pop(names[0])
+                    if f == "bloc_voter_prop":
+                        q[f][names[1]] = 1.0
+                else:
+                    q[f]["Zextra"] = 0.0 if f == "bloc_voter_prop" else copy.deepcopy(q[f][names[0]])
+            expect(ctx, {"what": f"{model}: bloc {'missing from' if op == 'drop' else 'extra in'} {'+'.join(fs)} only", "model": model,
+                         "params": q}, lambda q=q: bp.make(model, q, extra), ValueError, "bloc_names")
         s2c = {b: list(c) for b, c in p["slate_to_candidates"].items()}
         s2c["Zother"] = s2c.pop(names[0])
         expect(ctx, {"what": f"{model}.from_params: slate names differ from bloc names", "model": model},
